@@ -430,7 +430,15 @@ class LangServer:
                 )
                 # Traverse USE tree and add to list
                 if not no_use:
-                    use_dict = get_use_tree(scope, use_dict, self.obj_tree)
+                    # A module seen from outside (USE ..., ONLY:) is not the root
+                    # of the walk: its default accessibility filters what it
+                    # passes on
+                    use_dict = get_use_tree(
+                        scope,
+                        use_dict,
+                        self.obj_tree,
+                        curr_path=["#outside"] if public_only else None,
+                    )
             # Look in found use modules
             rename_list = [None for _ in var_list]
             import_var_list = []
